@@ -151,7 +151,12 @@ def main(argv=None):
             for r in pool.imap_unordered(_job, args, chunksize=1):
                 results.append(r)
     if hasattr(mod, 'extra_engines'):
-        extra = mod.extra_engines(a.tier, seed) or []
+        try:
+            extra = mod.extra_engines(a.tier, seed) or []
+        except Exception as e:      # noqa
+            print(f"HARNESS-ERROR property={prop} auxiliary engine failed: {e}")
+            traceback.print_exc()
+            return 2
 
     errors = [r for r in results if 'error' in r]
     for r in errors:
